@@ -71,7 +71,7 @@ FUNCTIONS = {
               'HeapBalancerSink._size', 'HeapBalancerSink.g_added', 'Channel.state', 'Channel.g_closes', 'set[any]', '$cls'],
     allocates='any',
     ghost=[{'after': 'added_node = super(ApertureBalancerSink, self)._AddSink(new_endpoint, new_sink)', 'do': ['self.g_node[new_endpoint] = self.g_added']}],
-    props=['C06'],
+    props=['C06', 'C05'],
   ),
 
   # load-driven adjustment.  Growth: when the smoothed load per active member is at or above max_load, an idle member
@@ -137,7 +137,7 @@ FUNCTIONS = {
     modifies=['Node.load', 'Node.index', 'Node.downq', 'Node.avg_load', 'Node.channel', 'Node.endpoint', 'Node.g_out', 'Node.g_inq', 'list[Node]', 'list[any]', 'dict[any,Node]',
               'HeapBalancerSink._size', 'HeapBalancerSink.g_added', 'HeapBalancerSink.g_removed', 'Channel.state', 'Channel.g_closes', 'set[any]', '$cls'],
     allocates='any',
-    props=['C06'],
+    props=['C06', 'C05'],
   ),
 
   # contraction: at most one active member goes back to the idle half, and only while more than min_size healthy members
@@ -174,12 +174,14 @@ FUNCTIONS = {
       {'after': 'least_loaded_endpoint = None', 'do': ['g_n = None']},
       {'after': 'least_loaded_endpoint = n.endpoint', 'do': ['g_n = n', 'prove(inheap(self._heap, n), "candidate-is-an-active-member")']},
       {'before': 'self._idle_endpoints.add(least_loaded_endpoint)', 'do': [
-        'prove(g_n is not None and inheap(self._heap, g_n) and g_n.endpoint == least_loaded_endpoint, "retires-an-active-member")', 'g_s0 = self._size']},
+        'prove(g_n is not None and inheap(self._heap, g_n) and g_n.endpoint == least_loaded_endpoint, "retires-an-active-member")']},
+      {'before': 'super(ApertureBalancerSink, self)._RemoveSink(least_loaded_endpoint)', 'do': [
+        'g_s0 = self._size', 'prove(least_loaded_endpoint in self._idle_endpoints, "the-retired-member-is-parked-idle-first")']},
       {'after': 'super(ApertureBalancerSink, self)._RemoveSink(least_loaded_endpoint)', 'do': [
         'prove(not inheap(self._heap, g_n), "the-candidate-left-the-active-set")',
         'prove(self._size == g_s0 - 1, "exactly-one-member-retired")']},
     ],
-    props=['C06'],
+    props=['C06', 'C05'],
   ),
 
   # a joining member goes into exactly one half: active while fewer than min_size healthy members are active, else idle
@@ -199,7 +201,7 @@ FUNCTIONS = {
     modifies=['Node.load', 'Node.index', 'Node.downq', 'Node.avg_load', 'Node.channel', 'Node.endpoint', 'Node.g_out', 'Node.g_inq', 'list[Node]',
               'HeapBalancerSink._size', 'HeapBalancerSink.g_added', 'Channel.state', 'Channel.g_closes', 'set[any]', '$cls'],
     allocates='any',
-    props=['C06'],
+    props=['C06', 'C05'],
   ),
 }
 EXTERNS = {
@@ -250,7 +252,7 @@ FUNCTIONS.update({
     ghost=[
       {'after': 'self._OnServersChanged(ep, channel_factory, True)', 'do': ['if not (ep in self._idle_endpoints): self.g_node[ep] = self.g_added']},
     ],
-    props=['C06'],
+    props=['C06', 'C05'],
   ),
   'LoadBalancerSink.__RemoveServer@ap': dict(
     file='scales/loadbalancer/base.py', path='LoadBalancerSink.__RemoveServer', cls='ApertureBalancerSink', params={'instance': 'SetMember'}, aspect='ap',
@@ -261,29 +263,29 @@ FUNCTIONS.update({
              'forall(e, "any", implies(e != ep_of(self, instance), has_key(self._servers, e) == old(has_key(self._servers, e))))'],
     raises={'ValueError': dict(when='not ep_ok(self, instance)', ensures=['ApAll(self)', 'forall(e, "any", has_key(self._servers, e) == old(has_key(self._servers, e)))'])},
     modifies=_AP_MOD, allocates='any',
-    props=['C06'],
+    props=['C06', 'C05'],
   ),
   'LoadBalancerSink.__OnServerSetJoin@ap': dict(
     file='scales/loadbalancer/base.py', path='LoadBalancerSink.__OnServerSetJoin', cls='ApertureBalancerSink', params={'instance': 'SetMember'}, aspect='ap',
     conc='MembersAp', guar=['MembersApLoading'],
     requires=['allocated(instance)', 'allocated(instance.additional_endpoints)', 'instance.service_endpoint is not None', 'allocated(self.__init_done)'],
-    ensures=['implies(ep_ok(self, instance), has_key(self._servers, ep_of(self, instance)))'],
+    ensures=['self.__init_done.flag', 'implies(ep_ok(self, instance), has_key(self._servers, ep_of(self, instance)))'],
     raises={'ValueError': dict(when='not ep_ok(self, instance)')},
     modifies=_AP_MOD, allocates='any',
     yields=[{'at': 'self.__init_done.wait()'}],
     ghost=[{'after': 'self.__init_done.wait()', 'do': ['prove(self.__init_done.flag, "takes-effect-only-after-the-initial-load")']}],
-    props=['C06'],
+    props=['C06', 'C05'],
   ),
   'LoadBalancerSink.__OnServerSetLeave@ap': dict(
     file='scales/loadbalancer/base.py', path='LoadBalancerSink.__OnServerSetLeave', cls='ApertureBalancerSink', params={'instance': 'SetMember'}, aspect='ap',
     conc='MembersAp', guar=['MembersApLoading'],
     requires=['allocated(instance)', 'allocated(instance.additional_endpoints)', 'instance.service_endpoint is not None', 'allocated(self.__init_done)'],
-    ensures=['implies(ep_ok(self, instance), not has_key(self._servers, ep_of(self, instance)))'],
+    ensures=['self.__init_done.flag', 'implies(ep_ok(self, instance), not has_key(self._servers, ep_of(self, instance)))'],
     raises={'ValueError': dict(when='not ep_ok(self, instance)')},
     modifies=_AP_MOD, allocates='any',
     yields=[{'at': 'self.__init_done.wait()'}],
     ghost=[{'after': 'self.__init_done.wait()', 'do': ['prove(self.__init_done.flag, "takes-effect-only-after-the-initial-load")']}],
-    props=['C06'],
+    props=['C06', 'C05'],
   ),
 })
 
@@ -311,6 +313,6 @@ FUNCTIONS.update({
       {'before': 'self.__init_done.set()', 'do': [
         'prove(forall(k, 0, len(server_set), has_key(self._servers, ep_of(self, server_set[k]))), "initial-members-installed-before-notifications-pass")']},
     ],
-    props=['C06'],
+    props=['C06', 'C05'],
   ),
 })
